@@ -226,31 +226,6 @@ theorem readNextS_of_header_error (c : Compression) (s : Bytes)
   · exact ⟨_, rfl⟩
   · rename_i h; cases h
 
-/-- reading a record that was cut anywhere before its end fails -/
-theorem readNextS_trunc (c : Compression) (r : GoBytes) (hf : FitsRec c r) (m : Nat)
-    (hm : m < (encRecord c r).length) : ∃ e, readNextS c ((encRecord c r).take m) = .error e := by
-  obtain ⟨j, hj, hw⟩ := fileWin_take (encRecord c r) m
-  cases r with
-  | none =>
-    simp only [encRecord] at hw hm ⊢
-    rcases readHeader_trunc _ true 0 _ [] j (by decide) hf (by rw [List.append_nil]; exact hw) with h | ⟨_, h⟩
-    · exact readNextS_of_header_error c _ h
-    · omega
-  | some r =>
-    obtain ⟨hf1, hf2⟩ := hf
-    simp only [encRecord] at hw hm ⊢
-    rcases readHeader_trunc _ false r.length _ (stored c r) j hf1 hf2 hw with h | ⟨hok, h⟩
-    · exact readNextS_of_header_error c _ h
-    · simp only [List.length_append] at hm
-      unfold readNextS
-      rw [hok]
-      simp only [expectedLen_enc, Bool.false_eq_true, if_false, List.length_drop, List.length_take,
-        List.length_append]
-      rw [if_neg (by omega)]
-      split
-      · exact ⟨_, rfl⟩
-      · rw [if_pos (by omega)]; exact ⟨_, rfl⟩
-
 theorem readAt_trunc (c : Compression) (pre : Bytes) (r : GoBytes) (hf : FitsRec c r) (m : Nat)
     (hm : m < (encRecord c r).length) :
     ∃ e, readAt c (pre ++ (encRecord c r).take m) pre.length = .error e := by
@@ -308,35 +283,6 @@ theorem readNextS_nil (c : Compression) : readNextS c [] = .error .eof := by
   have := zero_tail_is_eof c 0
   simpa using this
 
-theorem readAllS_trunc (c : Compression) (hl : LawfulC c) (rs : List GoBytes) :
-    ∀ (b fuel : Nat), (∀ r ∈ rs, FitsRec c r) → wholeInAux c rs b < fuel →
-      ∃ e, readAllS c fuel ((encAll c rs).take b) = (rs.take (wholeInAux c rs b), e) := by
-  induction rs with
-  | nil =>
-    intro b fuel _ hfu
-    cases fuel with
-    | zero => omega
-    | succ f => exact ⟨.eof, by simp [readAllS, readNextS_nil, wholeInAux]⟩
-  | cons r rs ih =>
-    intro b fuel hf hfu
-    cases fuel with
-    | zero => omega
-    | succ f =>
-      simp only [wholeInAux] at hfu ⊢
-      by_cases hb : (encRecord c r).length ≤ b
-      · rw [if_pos hb] at hfu ⊢
-        obtain ⟨e, he⟩ := ih (b - (encRecord c r).length) f (fun x hx => hf x (by simp [hx])) (by omega)
-        refine ⟨e, ?_⟩
-        have h1 := readNextS_enc c r ((encAll c rs).take (b - (encRecord c r).length)) hl (hf r (by simp))
-        rw [encAll_cons, List.take_append, List.take_of_length_le hb]
-        simp only [readAllS, h1, List.drop_left, he]
-        rw [Nat.add_comm 1, List.take_succ_cons]
-      · rw [if_neg hb]
-        obtain ⟨e, he⟩ := readNextS_trunc c r (hf r (by simp)) b (by omega)
-        refine ⟨e, ?_⟩
-        rw [encAll_cons, List.take_append_of_le_length (by omega)]
-        simp [readAllS, he]
-
 theorem openReadAll_of_ok (c : Compression) (f : Bytes) (p : Nat × Nat) (h : parseFileHeader f = .ok p) :
     openReadAll c f = readAll c f := by
   unfold openReadAll; rw [h]
@@ -344,44 +290,6 @@ theorem openReadAll_of_ok (c : Compression) (f : Bytes) (p : Nat × Nat) (h : pa
 theorem openReadAll_of_error (c : Compression) (f : Bytes) (e : Err) (h : parseFileHeader f = .error e) :
     openReadAll c f = ([], e) := by
   unfold openReadAll; rw [h]
-
-theorem truncate_prefix (c : Compression) (ct : Nat) (rs : List GoBytes)
-    (hl : LawfulC c) (hf : ∀ r ∈ rs, FitsRec c r) (hct : ct ≤ maxCompression) (n : Nat) :
-    ∃ e, openReadAll c ((fileHeader currentVersion ct ++ encAll c rs).take n)
-      = (rs.take (wholeIn c rs n), e) := by
-  by_cases hn : n < fileHeaderSize
-  · have h0 : wholeIn c rs n = 0 := by
-      have := wholeInAux_le_budget c rs (n - fileHeaderSize)
-      unfold wholeIn; omega
-    have hlen : ((fileHeader currentVersion ct ++ encAll c rs).take n).length < fileHeaderSize := by
-      rw [List.length_take]; omega
-    have hp : ∃ e, parseFileHeader ((fileHeader currentVersion ct ++ encAll c rs).take n) = .error e := by
-      unfold parseFileHeader
-      rw [if_pos hlen]
-      split <;> exact ⟨_, rfl⟩
-    obtain ⟨e, he⟩ := hp
-    rw [openReadAll_of_error c _ e he, h0]
-    exact ⟨e, rfl⟩
-  · have h8 : fileHeaderSize = 8 := rfl
-    have htake : (fileHeader currentVersion ct ++ encAll c rs).take n =
-        fileHeader currentVersion ct ++ (encAll c rs).take (n - fileHeaderSize) := by
-      rw [List.take_append, List.take_of_length_le (by rw [fileHeader_length]; omega), fileHeader_length, h8]
-    have hparse : parseFileHeader (fileHeader currentVersion ct ++ (encAll c rs).take (n - fileHeaderSize))
-        = .ok (currentVersion, ct) := by
-      have := file_header_accepted currentVersion ct ((encAll c rs).take (n - fileHeaderSize))
-        ⟨by decide, Nat.le_refl _⟩ hct
-      exact this
-    have hd : (fileHeader currentVersion ct ++ (encAll c rs).take (n - fileHeaderSize)).drop fileHeaderSize
-        = (encAll c rs).take (n - fileHeaderSize) := List.drop_left' (fileHeader_length _ _)
-    rw [htake, openReadAll_of_ok c _ _ hparse]
-    unfold readAll wholeIn
-    rw [hd]
-    apply readAllS_trunc c hl rs _ _ hf
-    have h1 := wholeInAux_le_budget c rs (n - fileHeaderSize)
-    have h2 := wholeInAux_le_length c rs (n - fileHeaderSize)
-    have h3 := length_le_encAll c rs
-    simp only [List.length_append, fileHeader_length, List.length_take]
-    omega
 
 theorem truncate_readAt (c : Compression) (ct : Nat) (rs : List GoBytes) (k : Nat) (hk : k < rs.length)
     (hl : LawfulC c) (hf : ∀ r ∈ rs, FitsRec c r) (n : Nat) :
@@ -699,5 +607,330 @@ theorem header_alter_detected_partial (c : Compression) (r : GoBytes) (pre rest 
     obtain ⟨e, he⟩ := readHeader_altered _ nf u cl t i x hfp ht
     rw [he]
     exact ⟨e, rfl⟩
+
+/-! ## error kinds of a cut file (only EOF / unexpected EOF) -/
+
+theorem uvarintDecAux_prefix : ∀ (bs t : Bytes) (i x s : Nat),
+    uvarintDecAux bs i x s = uvarintDecAux (bs ++ t) i x s ∨
+    uvarintDecAux bs i x s = .error .eof ∨ uvarintDecAux bs i x s = .error .unexpectedEof := by
+  intro bs
+  induction bs with
+  | nil =>
+    intro t i x s
+    right
+    simp only [uvarintDecAux]
+    split
+    · exact Or.inl rfl
+    · exact Or.inr rfl
+  | cons b bs ih =>
+    intro t i x s
+    simp only [List.cons_append, uvarintDecAux]
+    by_cases h10 : i ≥ 10
+    · simp only [if_pos h10]; exact Or.inl trivial
+    · simp only [if_neg h10]
+      by_cases hb : b.toNat < 128
+      · simp only [if_pos hb]; exact Or.inl trivial
+      · simp only [if_neg hb]; exact ih t _ _ _
+
+theorem canonDec_ok_inv (w : Win) (bs : Bytes) (v n : Nat) (h : canonDec w bs = .ok (v, n)) :
+    uvarintDec bs = .ok (v, n) ∧ ¬ (n > 1 ∧ bs.getD (n - 1) 0 = 0) := by
+  rw [canonDec_eq] at h
+  cases hm : w.map (uvarintDec bs) with
+  | error e => rw [hm] at h; cases h
+  | ok p =>
+    obtain ⟨v', n'⟩ := p
+    rw [hm] at h
+    simp only [] at h
+    by_cases hc : n' > 1 ∧ bs.getD (n' - 1) 0 = 0
+    · rw [if_pos hc] at h; cases h
+    · rw [if_neg hc] at h
+      cases h
+      exact ⟨Win.map_ok w _ _ hm, hc⟩
+
+theorem canonDec_prefix (w w' : Win) (bs t : Bytes) (v n : Nat) (h0 : w.end0 = .eof) (hN : w.endN = .unexpectedEof)
+    (h : canonDec w' (bs ++ t) = .ok (v, n)) :
+    canonDec w bs = .ok (v, n) ∨ canonDec w bs = .error .eof ∨ canonDec w bs = .error .unexpectedEof := by
+  obtain ⟨hd, hc⟩ := canonDec_ok_inv _ _ _ _ h
+  rcases uvarintDecAux_prefix bs t 0 0 0 with e | e | e
+  · left
+    have hd' : uvarintDec bs = .ok (v, n) := by
+      unfold uvarintDec at hd ⊢; rw [e]; exact hd
+    obtain ⟨_, a2, _⟩ := uvarintDecAux_ok_ext bs 0 0 0 v n hd'
+    rw [canonDec_eq, hd', Win.map_ok']
+    simp only []
+    rw [if_neg]
+    rw [List.getD_eq_getElem?_getD, List.getElem?_append_left (by omega),
+      ← List.getD_eq_getElem?_getD] at hc
+    exact hc
+  · right; left
+    have hd' : uvarintDec bs = .error .eof := e
+    rw [canonDec_eq, hd']
+    simp only [Win.map, h0]
+  · right; right
+    have hd' : uvarintDec bs = .error .unexpectedEof := e
+    rw [canonDec_eq, hd']
+    simp only [Win.map, hN]
+
+
+theorem readHeader_ok_inv (w : Win) (h : RecHeader) (hok : readHeader w = .ok h) :
+    ∃ c1 nb rest u c2 cl c3 ex c4,
+      canonDec w w.bytes = .ok (magicNumber, c1) ∧ w.bytes.drop c1 = nb :: rest ∧
+      canonDec w rest = .ok (u, c2) ∧ canonDec w (rest.drop c2) = .ok (cl, c3) ∧
+      canonDec w ((rest.drop c2).drop c3) = .ok (ex, c4) ∧
+      (crc32c (w.bytes.take (c1 + 1 + c2 + c3))).toNat = ex ∧
+      h = { ulen := u, clen := cl, isNil := nb == 1, hlen := c1 + 1 + c2 + c3 + c4 } := by
+  rw [readHeader_eq] at hok
+  cases h1 : canonDec w w.bytes with
+  | error e => rw [h1] at hok; cases hok
+  | ok p1 =>
+    obtain ⟨m, c1⟩ := p1
+    rw [h1] at hok
+    simp only [] at hok
+    by_cases hm : m ≠ magicNumber
+    · rw [if_pos hm] at hok; cases hok
+    · rw [if_neg hm] at hok
+      have hm' : m = magicNumber := Decidable.not_not.mp hm
+      subst hm'
+      cases h2 : w.bytes.drop c1 with
+      | nil => rw [h2] at hok; cases hok
+      | cons nb rest =>
+        rw [h2] at hok
+        simp only [] at hok
+        cases h3 : canonDec w rest with
+        | error e => rw [h3] at hok; cases hok
+        | ok p2 =>
+          obtain ⟨u, c2⟩ := p2
+          rw [h3] at hok
+          simp only [] at hok
+          cases h4 : canonDec w (rest.drop c2) with
+          | error e => rw [h4] at hok; cases hok
+          | ok p3 =>
+            obtain ⟨cl, c3⟩ := p3
+            rw [h4] at hok
+            simp only [] at hok
+            cases h5 : canonDec w ((rest.drop c2).drop c3) with
+            | error e => rw [h5] at hok; cases hok
+            | ok p4 =>
+              obtain ⟨ex, c4⟩ := p4
+              rw [h5] at hok
+              simp only [] at hok
+              by_cases hcrc : (crc32c (w.bytes.take (c1 + 1 + c2 + c3))).toNat ≠ ex
+              · rw [if_pos hcrc] at hok; cases hok
+              · rw [if_neg hcrc] at hok
+                cases hok
+                exact ⟨c1, nb, rest, u, c2, cl, c3, ex, c4, rfl, h2, h3, h4, h5,
+                  Decidable.not_not.mp hcrc, rfl⟩
+
+theorem readHeader_err1 (w : Win) (e : Err) (h1 : canonDec w w.bytes = .error e) :
+    readHeader w = .error e := by
+  rw [readHeader_eq, h1]
+
+theorem readHeader_err2 (w : Win) (c1 : Nat) (h1 : canonDec w w.bytes = .ok (magicNumber, c1))
+    (h2 : w.bytes.drop c1 = []) : readHeader w = .error w.end0 := by
+  rw [readHeader_eq, h1]; simp only []; rw [if_neg (by simp), h2]
+
+theorem readHeader_err3 (w : Win) (c1 : Nat) (nb : UInt8) (rest : Bytes) (e : Err)
+    (h1 : canonDec w w.bytes = .ok (magicNumber, c1)) (h2 : w.bytes.drop c1 = nb :: rest)
+    (h3 : canonDec w rest = .error e) : readHeader w = .error e := by
+  rw [readHeader_eq, h1]; simp only []; rw [if_neg (by simp), h2]; simp only []; rw [h3]
+
+theorem readHeader_err4 (w : Win) (c1 : Nat) (nb : UInt8) (rest : Bytes) (u c2 : Nat) (e : Err)
+    (h1 : canonDec w w.bytes = .ok (magicNumber, c1)) (h2 : w.bytes.drop c1 = nb :: rest)
+    (h3 : canonDec w rest = .ok (u, c2)) (h4 : canonDec w (rest.drop c2) = .error e) :
+    readHeader w = .error e := by
+  rw [readHeader_eq, h1]; simp only []; rw [if_neg (by simp), h2]; simp only []; rw [h3]
+  simp only []; rw [h4]
+
+theorem readHeader_err5 (w : Win) (c1 : Nat) (nb : UInt8) (rest : Bytes) (u c2 cl c3 : Nat) (e : Err)
+    (h1 : canonDec w w.bytes = .ok (magicNumber, c1)) (h2 : w.bytes.drop c1 = nb :: rest)
+    (h3 : canonDec w rest = .ok (u, c2)) (h4 : canonDec w (rest.drop c2) = .ok (cl, c3))
+    (h5 : canonDec w ((rest.drop c2).drop c3) = .error e) :
+    readHeader w = .error e := by
+  rw [readHeader_eq, h1]; simp only []; rw [if_neg (by simp), h2]; simp only []; rw [h3]
+  simp only []; rw [h4]; simp only []; rw [h5]
+
+theorem readHeader_ok_of (w : Win) (c1 : Nat) (nb : UInt8) (rest : Bytes) (u c2 cl c3 ex c4 : Nat)
+    (h1 : canonDec w w.bytes = .ok (magicNumber, c1)) (h2 : w.bytes.drop c1 = nb :: rest)
+    (h3 : canonDec w rest = .ok (u, c2)) (h4 : canonDec w (rest.drop c2) = .ok (cl, c3))
+    (h5 : canonDec w ((rest.drop c2).drop c3) = .ok (ex, c4))
+    (h6 : (crc32c (w.bytes.take (c1 + 1 + c2 + c3))).toNat = ex) :
+    readHeader w = .ok { ulen := u, clen := cl, isNil := nb == 1, hlen := c1 + 1 + c2 + c3 + c4 } := by
+  rw [readHeader_eq, h1]; simp only []; rw [if_neg (by simp), h2]; simp only []; rw [h3]
+  simp only []; rw [h4]; simp only []; rw [h5]; simp only []; rw [if_neg (by simp [h6])]
+
+/-- over an unlimited window holding a prefix of bytes that parse, the parse succeeds identically or
+runs off the end -/
+theorem readHeader_prefix (w w' : Win) (t : Bytes) (h : RecHeader)
+    (h0 : w.end0 = .eof) (hN : w.endN = .unexpectedEof) (hb : w'.bytes = w.bytes ++ t)
+    (hok : readHeader w' = .ok h) :
+    readHeader w = .ok h ∨ readHeader w = .error .eof ∨ readHeader w = .error .unexpectedEof := by
+  obtain ⟨c1, nb, rest', u, c2, cl, c3, ex, c4, g1, g2, g3, g4, g5, g6, rfl⟩ := readHeader_ok_inv w' h hok
+  rw [hb] at g1 g2 g6
+  rcases canonDec_prefix w w' _ t _ _ h0 hN g1 with k1 | k1 | k1
+  case inr.inl => exact Or.inr (Or.inl (readHeader_err1 w _ k1))
+  case inr.inr => exact Or.inr (Or.inr (readHeader_err1 w _ k1))
+  obtain ⟨_, l1, _⟩ := canonDec_ok_ext _ _ _ _ k1
+  rw [List.drop_append_of_le_length l1] at g2
+  cases k2 : w.bytes.drop c1 with
+  | nil => exact Or.inr (Or.inl (h0 ▸ readHeader_err2 w c1 k1 k2))
+  | cons nb2 rest =>
+    rw [k2, List.cons_append] at g2
+    obtain ⟨rfl, rfl⟩ := List.cons.inj g2
+    have hlen := congrArg List.length k2
+    simp only [List.length_drop, List.length_cons] at hlen
+    rcases canonDec_prefix w w' _ t _ _ h0 hN g3 with k3 | k3 | k3
+    case inr.inl => exact Or.inr (Or.inl (readHeader_err3 w c1 _ _ _ k1 k2 k3))
+    case inr.inr => exact Or.inr (Or.inr (readHeader_err3 w c1 _ _ _ k1 k2 k3))
+    obtain ⟨_, l2, _⟩ := canonDec_ok_ext _ _ _ _ k3
+    rw [List.drop_append_of_le_length l2] at g4 g5
+    rcases canonDec_prefix w w' _ t _ _ h0 hN g4 with k4 | k4 | k4
+    case inr.inl => exact Or.inr (Or.inl (readHeader_err4 w c1 _ _ _ _ _ k1 k2 k3 k4))
+    case inr.inr => exact Or.inr (Or.inr (readHeader_err4 w c1 _ _ _ _ _ k1 k2 k3 k4))
+    obtain ⟨_, l3, _⟩ := canonDec_ok_ext _ _ _ _ k4
+    rw [List.drop_append_of_le_length l3] at g5
+    rcases canonDec_prefix w w' _ t _ _ h0 hN g5 with k5 | k5 | k5
+    case inr.inl => exact Or.inr (Or.inl (readHeader_err5 w c1 _ _ _ _ _ _ _ k1 k2 k3 k4 k5))
+    case inr.inr => exact Or.inr (Or.inr (readHeader_err5 w c1 _ _ _ _ _ _ _ k1 k2 k3 k4 k5))
+    left
+    simp only [List.length_drop] at l3
+    rw [List.take_append_of_le_length (by omega)] at g6
+    exact readHeader_ok_of w c1 _ _ _ _ _ _ _ _ k1 k2 k3 k4 k5 g6
+
+
+/-- a cut header over the file reader's window fails with EOF / unexpected EOF -/
+theorem readHeader_cut (nf : Bool) (u cl : Nat) (hu : u < 2 ^ 64) (hcl : cl < 2 ^ 64) (m : Nat)
+    (hm : m < (encHeader nf u cl).length) :
+    readHeader (fileWin ((encHeader nf u cl).take m)) = .error .eof ∨
+    readHeader (fileWin ((encHeader nf u cl).take m)) = .error .unexpectedEof := by
+  have hle := encHeader_length_le nf u cl hu hcl
+  have hwin : fileWin ((encHeader nf u cl).take m) =
+      { bytes := (encHeader nf u cl).take m, end0 := .eof, endN := .unexpectedEof } := by
+    unfold fileWin
+    rw [if_neg (by rw [List.length_take]; omega)]
+  rw [hwin]
+  have hfull := readHeader_enc ⟨encHeader nf u cl, .eof, .eof⟩ nf u cl [] hu hcl (List.append_nil _).symm
+  rcases readHeader_prefix ⟨(encHeader nf u cl).take m, .eof, .unexpectedEof⟩ _ ((encHeader nf u cl).drop m) _
+    rfl rfl (List.take_append_drop m _).symm hfull with h | h | h
+  · have := (readHeader_ok_ext _ _ h).1
+    simp only [List.length_take] at this
+    omega
+  · exact Or.inl h
+  · exact Or.inr h
+
+theorem readNextS_trunc_err (c : Compression) (r : GoBytes) (hf : FitsRec c r) (m : Nat)
+    (hm : m < (encRecord c r).length) :
+    readNextS c ((encRecord c r).take m) = .error .eof ∨
+    readNextS c ((encRecord c r).take m) = .error .unexpectedEof := by
+  obtain ⟨nf, u, cl, S, hu, hcl, hH, hR⟩ := encRecord_header c r hf
+  by_cases hcut : m < (encHeader nf u cl).length
+  · -- cut inside the header
+    have : (encRecord c r).take m = (encHeader nf u cl).take m := by
+      rw [hR, List.take_append_of_le_length (by omega)]
+    rw [this]
+    unfold readNextS
+    rcases readHeader_cut nf u cl hu hcl m hcut with h | h <;> rw [h]
+    · exact Or.inl rfl
+    · exact Or.inr rfl
+  · -- header complete, payload cut: the record is not nil
+    cases r with
+    | none => simp only [encRecord] at hm hH; rw [headerOf] at hH; rw [hH] at hm; omega
+    | some r =>
+      obtain ⟨hf1, hf2⟩ := hf
+      simp only [encRecord, List.length_append] at hm ⊢
+      have hlen : (encHeader false r.length (clenOf c r)).length ≤ m := by
+        simp only [headerOf] at hH; rw [hH]; omega
+      have htake : (encHeader false r.length (clenOf c r) ++ stored c r).take m =
+          encHeader false r.length (clenOf c r) ++
+            (stored c r).take (m - (encHeader false r.length (clenOf c r)).length) := by
+        rw [List.take_append, List.take_of_length_le hlen]
+      rw [htake]
+      unfold readNextS
+      rw [readHeader_fileWin false r.length _ _ hf1 hf2]
+      simp only [expectedLen_enc, Bool.false_eq_true, if_false, List.drop_left, List.length_take]
+      rw [if_neg (by omega)]
+      split
+      · exact Or.inl rfl
+      · rw [if_pos (by omega)]; exact Or.inr rfl
+
+theorem readAllS_trunc_err (c : Compression) (hl : LawfulC c) (rs : List GoBytes) :
+    ∀ (b fuel : Nat), (∀ r ∈ rs, FitsRec c r) → wholeInAux c rs b < fuel →
+      ∃ e, (e = .eof ∨ e = .unexpectedEof) ∧
+        readAllS c fuel ((encAll c rs).take b) = (rs.take (wholeInAux c rs b), e) := by
+  induction rs with
+  | nil =>
+    intro b fuel _ hfu
+    cases fuel with
+    | zero => omega
+    | succ f => exact ⟨.eof, Or.inl rfl, by simp [readAllS, readNextS_nil, wholeInAux]⟩
+  | cons r rs ih =>
+    intro b fuel hf hfu
+    cases fuel with
+    | zero => omega
+    | succ f =>
+      simp only [wholeInAux] at hfu ⊢
+      by_cases hb : (encRecord c r).length ≤ b
+      · rw [if_pos hb] at hfu ⊢
+        obtain ⟨e, hk, he⟩ := ih (b - (encRecord c r).length) f (fun x hx => hf x (by simp [hx])) (by omega)
+        refine ⟨e, hk, ?_⟩
+        have h1 := readNextS_enc c r ((encAll c rs).take (b - (encRecord c r).length)) hl (hf r (by simp))
+        rw [encAll_cons, List.take_append, List.take_of_length_le hb]
+        simp only [readAllS, h1, List.drop_left, he]
+        rw [Nat.add_comm 1, List.take_succ_cons]
+      · rw [if_neg hb]
+        have hcut := readNextS_trunc_err c r (hf r (by simp)) b (by omega)
+        rw [encAll_cons, List.take_append_of_le_length (by omega)]
+        rcases hcut with he | he
+        · exact ⟨.eof, Or.inl rfl, by simp [readAllS, he]⟩
+        · exact ⟨.unexpectedEof, Or.inr rfl, by simp [readAllS, he]⟩
+
+/-- `truncate_prefix` with the error kind: a cut file ends with EOF or unexpected EOF, nothing else -/
+theorem truncate_prefix_err (c : Compression) (ct : Nat) (rs : List GoBytes)
+    (hl : LawfulC c) (hf : ∀ r ∈ rs, FitsRec c r) (hct : ct ≤ maxCompression) (n : Nat) :
+    ∃ e, (e = .eof ∨ e = .unexpectedEof) ∧
+      openReadAll c ((fileHeader currentVersion ct ++ encAll c rs).take n)
+        = (rs.take (wholeIn c rs n), e) := by
+  by_cases hn : n < fileHeaderSize
+  · have h0 : wholeIn c rs n = 0 := by
+      have := wholeInAux_le_budget c rs (n - fileHeaderSize)
+      unfold wholeIn; omega
+    have hlen : ((fileHeader currentVersion ct ++ encAll c rs).take n).length < fileHeaderSize := by
+      rw [List.length_take]; omega
+    have hp : ∃ e, (e = .eof ∨ e = .unexpectedEof) ∧
+        parseFileHeader ((fileHeader currentVersion ct ++ encAll c rs).take n) = .error e := by
+      unfold parseFileHeader
+      rw [if_pos hlen]
+      split
+      · exact ⟨_, Or.inl rfl, rfl⟩
+      · exact ⟨_, Or.inr rfl, rfl⟩
+    obtain ⟨e, hk, he⟩ := hp
+    rw [openReadAll_of_error c _ e he, h0]
+    exact ⟨e, hk, rfl⟩
+  · have h8 : fileHeaderSize = 8 := rfl
+    have htake : (fileHeader currentVersion ct ++ encAll c rs).take n =
+        fileHeader currentVersion ct ++ (encAll c rs).take (n - fileHeaderSize) := by
+      rw [List.take_append, List.take_of_length_le (by rw [fileHeader_length]; omega), fileHeader_length, h8]
+    have hparse : parseFileHeader (fileHeader currentVersion ct ++ (encAll c rs).take (n - fileHeaderSize))
+        = .ok (currentVersion, ct) := by
+      have := file_header_accepted currentVersion ct ((encAll c rs).take (n - fileHeaderSize))
+        ⟨by decide, Nat.le_refl _⟩ hct
+      exact this
+    have hd : (fileHeader currentVersion ct ++ (encAll c rs).take (n - fileHeaderSize)).drop fileHeaderSize
+        = (encAll c rs).take (n - fileHeaderSize) := List.drop_left' (fileHeader_length _ _)
+    rw [htake, openReadAll_of_ok c _ _ hparse]
+    unfold readAll wholeIn
+    rw [hd]
+    apply readAllS_trunc_err c hl rs _ _ hf
+    have h1 := wholeInAux_le_budget c rs (n - fileHeaderSize)
+    have h2 := wholeInAux_le_length c rs (n - fileHeaderSize)
+    have h3 := length_le_encAll c rs
+    simp only [List.length_append, fileHeader_length, List.length_take]
+    omega
+
+theorem truncate_prefix (c : Compression) (ct : Nat) (rs : List GoBytes)
+    (hl : LawfulC c) (hf : ∀ r ∈ rs, FitsRec c r) (hct : ct ≤ maxCompression) (n : Nat) :
+    ∃ e, openReadAll c ((fileHeader currentVersion ct ++ encAll c rs).take n)
+      = (rs.take (wholeIn c rs n), e) := by
+  obtain ⟨e, _, he⟩ := truncate_prefix_err c ct rs hl hf hct n
+  exact ⟨e, he⟩
 
 end SST.Proofs
